@@ -89,6 +89,8 @@ def _ends_in_exit(stmts: Sequence[ast.stmt]) -> bool:
         return True
     if isinstance(last, ast.If) and last.orelse:
         return _ends_in_exit(last.body) and _ends_in_exit(last.orelse)
+    if isinstance(last, (ast.With, ast.AsyncWith)):
+        return _ends_in_exit(last.body)
     return False
 
 
@@ -123,6 +125,14 @@ def _tailify(stmts: List[ast.stmt]) -> Optional[List[ast.stmt]]:
                 return out
             out.append(ast.copy_location(ast.If(test=s.test, body=body, orelse=orelse), s))
             continue
+        if isinstance(s, (ast.With, ast.AsyncWith)) and any(isinstance(n, ast.Return) for n in ast.walk(s)):
+            inner = _tailify(list(s.body))
+            if inner is None or not _ends_in_exit(inner):
+                return None
+            s2 = copy.copy(s)
+            s2.body = inner
+            out.append(s2)
+            return out  # the with block always exits: anything after is unreachable
         if isinstance(s, (ast.For, ast.AsyncFor, ast.While, ast.Try, ast.With, ast.AsyncWith)):
             if any(isinstance(n, ast.Return) for n in ast.walk(s)):
                 return None
@@ -149,6 +159,11 @@ def _replace_returns(stmts: List[ast.stmt], target: Optional[str]) -> List[ast.s
             body = _replace_returns(list(s.body), target) or [ast.copy_location(ast.Pass(), s)]
             orelse = _replace_returns(list(s.orelse), target)
             out.append(ast.copy_location(ast.If(test=s.test, body=body, orelse=orelse), s))
+            continue
+        if isinstance(s, (ast.With, ast.AsyncWith)):
+            s2 = copy.copy(s)
+            s2.body = _replace_returns(list(s.body), target) or [ast.copy_location(ast.Pass(), s)]
+            out.append(s2)
             continue
         out.append(s)
     return out
@@ -281,8 +296,11 @@ class ModuleCanon:
         prelude: List[ast.stmt] = []
         body = strip_docstring(fn.body)
         assigned = _assigned_names(body)
+        def n_uses(pname: str) -> int:
+            return sum(1 for st in body for n in ast.walk(st) if isinstance(n, ast.Name) and n.id == pname and isinstance(n.ctx, ast.Load))
+
         for p, v in given.items():
-            if _simple_arg(v) and p not in assigned:
+            if p not in assigned and (_simple_arg(v) or (not _has_impure_call(v) and (n_uses(p) <= 1 or _call_free_or_pure(v)))):
                 mapping[p] = v
             else:
                 tmp = tag + p
@@ -681,6 +699,8 @@ class _Strip(ast.NodeTransformer):
         if isinstance(node.func, ast.Attribute) and node.func.attr == "join" and len(node.args) == 1 and isinstance(node.args[0], ast.ListComp):
             node.args = [ast.GeneratorExp(elt=node.args[0].elt, generators=node.args[0].generators)]
             return node
+        if d == "range" and len(node.args) == 2 and isinstance(node.args[0], ast.Constant) and node.args[0].value == 0 and not node.keywords:
+            node.args = [node.args[1]]
         # f(*(a, *b)) -> f(a, *b) ; f(*tuple(g)) / f(*list(g)) -> f(*g)
         if any(isinstance(a, ast.Starred) for a in node.args):
             new_args: List[ast.AST] = []
@@ -712,6 +732,9 @@ class _Strip(ast.NodeTransformer):
 
     def visit_BinOp(self, node):
         self.generic_visit(node)
+        # (a,) * 2 -> (a, a)
+        if isinstance(node.op, ast.Mult) and isinstance(node.left, ast.Tuple) and isinstance(node.right, ast.Constant) and isinstance(node.right.value, int) and 0 < node.right.value <= 4 and all(_call_free_or_pure(e) for e in node.left.elts):
+            return ast.copy_location(ast.Tuple(elts=[copy.deepcopy(e) for _ in range(node.right.value) for e in node.left.elts], ctx=ast.Load()), node)
         # "0" + str(n) + "b"  -> f"0{n}b"
         if isinstance(node.op, ast.Add):
             parts = _concat_parts(node)
@@ -1041,6 +1064,96 @@ def _sink_returns(stmts: List[ast.stmt]) -> List[ast.stmt]:
     return out
 
 
+def _push_return_down(stmts: List[ast.stmt]) -> List[ast.stmt]:
+    """an if (with or without else) followed by a lone ``return e``: every path gets its own return"""
+    out: List[ast.stmt] = []
+    i = 0
+    while i < len(stmts):
+        s = stmts[i]
+        for field in ("body", "orelse", "finalbody"):
+            v = getattr(s, field, None)
+            if isinstance(v, list) and v and isinstance(v[0], ast.stmt):
+                setattr(s, field, _push_return_down(v))
+        if isinstance(s, ast.Try):
+            for h in s.handlers:
+                h.body = _push_return_down(h.body)
+        nxt = stmts[i + 1] if i + 1 < len(stmts) else None
+        if isinstance(s, ast.If) and isinstance(nxt, ast.Return) and i + 2 == len(stmts):
+            def push(block: List[ast.stmt]) -> List[ast.stmt]:
+                if _block_exits(block, False):
+                    return block
+                if block and isinstance(block[-1], ast.If):
+                    last = block[-1]
+                    last.body = push(list(last.body))
+                    last.orelse = push(list(last.orelse))
+                    return block
+                return [b for b in block if not isinstance(b, ast.Pass)] + [copy.deepcopy(nxt)]
+
+            s.body = push(list(s.body))
+            s.orelse = push(list(s.orelse))
+            out.append(s)
+            i += 2
+            continue
+        out.append(s)
+        i += 1
+    return out
+
+
+def _default_then_override(stmts: List[ast.stmt]) -> List[ast.stmt]:
+    """``x = D`` immediately followed by ``if c: x = E`` (no else)  ->  ``x = E if c else D``"""
+    out: List[ast.stmt] = []
+    for s in stmts:
+        for field in ("body", "orelse", "finalbody"):
+            v = getattr(s, field, None)
+            if isinstance(v, list) and v and isinstance(v[0], ast.stmt):
+                setattr(s, field, _default_then_override(v))
+        prev = out[-1] if out else None
+        if isinstance(s, ast.If) and not s.orelse and len(s.body) == 1 and isinstance(s.body[0], ast.Assign) and len(s.body[0].targets) == 1 and isinstance(s.body[0].targets[0], ast.Name) and isinstance(prev, ast.Assign) and len(prev.targets) == 1 and isinstance(prev.targets[0], ast.Name) and prev.targets[0].id == s.body[0].targets[0].id:
+            x = prev.targets[0].id
+            reads = {n.id for n in ast.walk(s.test) if isinstance(n, ast.Name)} | {n.id for n in ast.walk(s.body[0].value) if isinstance(n, ast.Name)}
+            if x not in reads and _call_free_or_pure(prev.value):
+                out[-1] = ast.copy_location(ast.Assign(targets=[prev.targets[0]], value=ast.IfExp(test=s.test, body=s.body[0].value, orelse=prev.value)), prev)
+                continue
+        out.append(s)
+    return out
+
+
+def _prealloc_fill(stmts: List[ast.stmt]) -> List[ast.stmt]:
+    """``x = list(np.zeros(N))`` / ``[0] * N`` / ``[None] * N`` followed by ``for i in range(N): x[i] = e``
+    (nothing else in the loop)  ->  ``x = [e for i in range(N)]``"""
+    out: List[ast.stmt] = []
+    for s in stmts:
+        for field in ("body", "orelse", "finalbody"):
+            v = getattr(s, field, None)
+            if isinstance(v, list) and v and isinstance(v[0], ast.stmt):
+                setattr(s, field, _prealloc_fill(v))
+        if isinstance(s, ast.For) and not s.orelse and len(s.body) == 1 and isinstance(s.target, ast.Name) and isinstance(s.iter, ast.Call) and dotted(s.iter.func) == "range" and len(s.iter.args) == 1:
+            b = s.body[0]
+            if isinstance(b, ast.Assign) and len(b.targets) == 1 and isinstance(b.targets[0], ast.Subscript) and isinstance(b.targets[0].value, ast.Name) and isinstance(b.targets[0].slice, ast.Name) and b.targets[0].slice.id == s.target.id:
+                x = b.targets[0].value.id
+                n_dump = ast.dump(s.iter.args[0])
+                for j in range(len(out) - 1, -1, -1):
+                    p = out[j]
+                    if isinstance(p, ast.Assign) and len(p.targets) == 1 and isinstance(p.targets[0], ast.Name) and p.targets[0].id == x:
+                        v = p.value
+                        size = None
+                        if isinstance(v, ast.Call) and dotted(v.func) == "list" and len(v.args) == 1 and isinstance(v.args[0], ast.Call) and (dotted(v.args[0].func) or "").split(".")[-1] in ("zeros", "empty") and v.args[0].args:
+                            size = v.args[0].args[0]
+                        elif isinstance(v, ast.BinOp) and isinstance(v.op, ast.Mult) and isinstance(v.left, ast.List) and len(v.left.elts) == 1 and isinstance(v.left.elts[0], ast.Constant):
+                            size = v.right
+                        if size is not None and ast.dump(size) == n_dump and not any(isinstance(n, ast.Name) and n.id == x for n in ast.walk(b.value)) and not any(isinstance(n, ast.Name) and n.id == x for q in out[j + 1:] for n in ast.walk(q)):
+                            del out[j]
+                            out.append(ast.copy_location(ast.Assign(targets=[ast.Name(id=x, ctx=ast.Store())], value=ast.ListComp(elt=b.value, generators=[ast.comprehension(target=s.target, iter=s.iter, ifs=[], is_async=0)])), s))
+                            s = None
+                        break
+                    if any(isinstance(n, ast.Name) and n.id == x for n in ast.walk(p)):
+                        break
+                if s is None:
+                    continue
+        out.append(s)
+    return out
+
+
 def _hoist_common_tail(stmts: List[ast.stmt]) -> List[ast.stmt]:
     """both branches of an if/else end with the same statement: it belongs after the if"""
     out: List[ast.stmt] = []
@@ -1053,7 +1166,7 @@ def _hoist_common_tail(stmts: List[ast.stmt]) -> List[ast.stmt]:
             for h in s.handlers:
                 h.body = _hoist_common_tail(h.body)
         tails: List[ast.stmt] = []
-        while isinstance(s, ast.If) and s.orelse and s.body and len(s.body) >= 1 and len(s.orelse) >= 1 and ast.dump(s.body[-1]) == ast.dump(s.orelse[-1]) and isinstance(s.body[-1], (ast.Return, ast.Raise, ast.Assign, ast.Expr, ast.AugAssign)) and (len(s.body) > 1 or len(s.orelse) > 1):
+        while isinstance(s, ast.If) and s.orelse and s.body and len(s.body) >= 1 and len(s.orelse) >= 1 and ast.dump(s.body[-1]) == ast.dump(s.orelse[-1]) and isinstance(s.body[-1], (ast.Assign, ast.Expr, ast.AugAssign)) and (len(s.body) > 1 or len(s.orelse) > 1):
             # the test must not be affected by... it is evaluated before either way; the tail runs after both
             tails.insert(0, s.body[-1])
             s.body = s.body[:-1] or [ast.Pass()]
@@ -1285,13 +1398,28 @@ def _inline_temporaries(fn: ast.FunctionDef) -> None:
             elif isinstance(n, ast.ExceptHandler) and n.name:
                 binds.setdefault(n.name, []).append(n)
         changed = False
+        closure_names = {n.id for sub in ast.walk(fn) if isinstance(sub, (ast.FunctionDef, ast.AsyncFunctionDef, ast.Lambda)) and sub is not fn for n in ast.walk(sub) if isinstance(n, ast.Name)}
 
-        def try_block(stmts: List[ast.stmt], in_loop: bool) -> bool:
+        def following_ok(name: str, following: List[List[ast.stmt]]) -> bool:
+            for blk in following:
+                for st in blk:
+                    for n in ast.walk(st):
+                        if isinstance(n, ast.Name) and n.id == name and isinstance(n.ctx, ast.Load):
+                            return False
+            return True
+
+        def try_block(stmts: List[ast.stmt], in_loop: bool, following: Optional[List[List[ast.stmt]]] = None) -> bool:
+            following = following or []
             for idx, s in enumerate(stmts):
                 if isinstance(s, ast.Assign) and len(s.targets) == 1 and isinstance(s.targets[0], ast.Name):
                     name = s.targets[0].id
-                    if name in params or len(binds.get(name, [])) != 1 or _has_impure_call(s.value):
+                    if name in params or _has_impure_call(s.value) or name in closure_names:
                         continue
+                    if len(binds.get(name, [])) != 1:
+                        # several bindings: fine when this one cannot be seen outside the statements that follow it in
+                        # its own block (disjoint branches each binding and using their own copy)
+                        if not following_ok(name, following) or in_loop:
+                            continue
                     if isinstance(s.value, (ast.List, ast.Dict, ast.Set, ast.ListComp, ast.DictComp, ast.SetComp)) and _mutated_later(name, stmts[idx + 1:]):
                         continue
                     free = {n.id for n in ast.walk(s.value) if isinstance(n, ast.Name)}
@@ -1302,8 +1430,12 @@ def _inline_temporaries(fn: ast.FunctionDef) -> None:
                         continue
                     uses = [n for r in rest for n in ast.walk(r) if isinstance(n, ast.Name) and n.id == name and isinstance(n.ctx, ast.Load)]
                     all_uses = [n for n in ast.walk(fn) if isinstance(n, ast.Name) and n.id == name and isinstance(n.ctx, ast.Load)]
-                    if len(uses) != len(all_uses) or not uses:
-                        continue  # used outside the block that follows the definition (or never)
+                    if not uses:
+                        continue
+                    if len(binds.get(name, [])) == 1 and len(uses) != len(all_uses):
+                        continue  # used outside the block that follows the definition
+                    if any(isinstance(n, ast.Name) and n.id == name and isinstance(n.ctx, (ast.Store, ast.Del)) for r in rest for n in ast.walk(r)):
+                        continue
                     if len(uses) > 1 and not _call_free_or_pure(s.value):
                         continue
                     if len(uses) == 1 and _use_in_repeated_region(uses[0], rest) and not _call_free_or_pure(s.value):
@@ -1318,11 +1450,11 @@ def _inline_temporaries(fn: ast.FunctionDef) -> None:
                 for field in ("body", "orelse", "finalbody"):
                     v = getattr(s, field, None)
                     if isinstance(v, list) and v and isinstance(v[0], ast.stmt):
-                        if try_block(v, in_loop or isinstance(s, (ast.For, ast.While))):
+                        if try_block(v, in_loop or isinstance(s, (ast.For, ast.While)), following + [stmts[idx + 1:]]):
                             return True
                 if isinstance(s, ast.Try):
                     for h in s.handlers:
-                        if try_block(h.body, in_loop):
+                        if try_block(h.body, in_loop, following + [stmts[idx + 1:]]):
                             return True
             return False
 
@@ -1476,7 +1608,10 @@ def canonical_function(fn: ast.FunctionDef) -> ast.FunctionDef:
         f.body = _split_multi_assign_branches(f.body)
         f.body = _fuse_list_builders(f.body)
         f.body = _loops_to_comprehensions(f.body)
-        f.body = _sink_returns(f.body)
+        f.body = _default_then_override(f.body)
+        f.body = _prealloc_fill(f.body)
+        f.body = _push_return_down(f.body)
+        f.body = _normalise_blocks(list(f.body), False) or [ast.Pass()]
         f.body = _hoist_common_tail(f.body)
         _inline_temporaries(f)
         f = _Strip().visit(f)
